@@ -151,6 +151,8 @@ def gen(out, per_file):
 DESELECT = ["src/ecdsa/test_der.py::TestEncodeBitstring::test_implicit_unused_bits", "src/ecdsa/test_der.py::TestEncodeBitstring::test_new_call_convention",
             "src/ecdsa/test_der.py::TestRemoveBitstring::test_implicit_unexpected_unused", "src/ecdsa/test_der.py::TestRemoveBitstring::test_new_call_convention",
             "src/ecdsa/test_jacobi.py::TestJacobi::test_add_different_scale_points", "src/ecdsa/test_jacobi.py::TestJacobi::test_add_one_scaled_point",
+            # timing-sensitive thread tests: they fail whenever the machine is busy, whatever the mutant
+            "src/ecdsa/test_jacobi.py::TestJacobi::test_multithreading_with_interrupts", "src/ecdsa/test_jacobi.py::TestJacobi::test_multithreading",
             "src/ecdsa/test_ecdsa.py::test_sig_verify", "src/ecdsa/test_jacobi.py::TestJacobi::test_add_same_scale_points", "src/ecdsa/test_ellipticcurve.py::test_p192_mult_tests"]
 
 
